@@ -810,7 +810,13 @@ def apply_as_grid_ufunc(
 
     # Restore any dimension coordinates associated with new output dims that are present in grid
     # Also throws loud warning if ufunc returns array of incorrect size
-    results_with_coords = _reattach_coords(results, grid, boundary_width, keep_coords)
+    results_with_coords = _reattach_coords(
+        results,
+        grid,
+        boundary_width,
+        keep_coords,
+        inputs=[_maybe_unpack_vector_component(arg) for arg in args],
+    )
 
     # Return single results not wrapped in 1-element tuple, like xr.apply_ufunc does
     if len(results_with_coords) == 1:
@@ -1116,8 +1122,16 @@ def _identify_dummy_axes_with_real_axes(
 
 
 def _reattach_coords(
-    results: Sequence[xr.DataArray], grid: "Grid", boundary_width, keep_coords: bool
+    results: Sequence[xr.DataArray],
+    grid: "Grid",
+    boundary_width,
+    keep_coords: bool,
+    inputs: Sequence[xr.DataArray] = (),
 ) -> List[xr.DataArray]:
+    # dimensions the grid knows as positions of its axes; along any other dimension the data
+    # need not have the length the grid's dataset has (a selection of time steps, say)
+    axis_dims = {dim for ax in grid.axes.values() for dim in ax.coords.values()}
+
     results_with_coords = []
     for res in results:
         # padding strips all coordinates (including dimension coordinates).
@@ -1126,6 +1140,11 @@ def _reattach_coords(
             coord: da_coord
             for coord, da_coord in grid._ds.coords.items()
             if all(dim in res.dims for dim in da_coord.dims)
+            and all(
+                da_coord.sizes[dim] == res.sizes[dim]
+                for dim in da_coord.dims
+                if dim not in axis_dims
+            )
         }
 
         try:
@@ -1139,6 +1158,18 @@ def _reattach_coords(
                 )
             else:
                 raise
+
+        # a dimension that belongs to no axis, and that the dataset could not label, keeps
+        # the labels it had on the input
+        for inp in inputs:
+            for dim in res.dims:
+                if (
+                    dim not in axis_dims
+                    and dim not in res.coords
+                    and dim in inp.coords
+                    and inp.sizes.get(dim) == res.sizes[dim]
+                ):
+                    res = res.assign_coords({dim: inp[dim].variable})
 
         if not keep_coords:
             # TODO I don't like the `keep_coords` argument in general and think it should be removed for clarity.
